@@ -486,7 +486,7 @@ func buildFieldType(ww *conversionVisitor, node sourcewalk.FieldNode) (*descript
 				}
 
 				if st.Integer.Rules.Maximum != nil {
-					if st.Integer.Rules.ExclusiveMaximum != nil {
+					if !st.Integer.Rules.GetExclusiveMaximum() {
 						rules.GetInt32().LessThan = &validate.Int32Rules_Lte{
 							Lte: int32(*st.Integer.Rules.Maximum),
 						}
@@ -498,7 +498,7 @@ func buildFieldType(ww *conversionVisitor, node sourcewalk.FieldNode) (*descript
 				}
 
 				if st.Integer.Rules.Minimum != nil {
-					if st.Integer.Rules.ExclusiveMinimum != nil {
+					if !st.Integer.Rules.GetExclusiveMinimum() {
 						rules.GetInt32().GreaterThan = &validate.Int32Rules_Gte{
 							Gte: int32(*st.Integer.Rules.Minimum),
 						}
@@ -515,7 +515,7 @@ func buildFieldType(ww *conversionVisitor, node sourcewalk.FieldNode) (*descript
 				}
 
 				if st.Integer.Rules.Maximum != nil {
-					if st.Integer.Rules.ExclusiveMaximum != nil {
+					if !st.Integer.Rules.GetExclusiveMaximum() {
 						rules.GetInt64().LessThan = &validate.Int64Rules_Lte{
 							Lte: *st.Integer.Rules.Maximum,
 						}
@@ -527,7 +527,7 @@ func buildFieldType(ww *conversionVisitor, node sourcewalk.FieldNode) (*descript
 				}
 
 				if st.Integer.Rules.Minimum != nil {
-					if st.Integer.Rules.ExclusiveMinimum != nil {
+					if !st.Integer.Rules.GetExclusiveMinimum() {
 						rules.GetInt64().GreaterThan = &validate.Int64Rules_Gte{
 							Gte: *st.Integer.Rules.Minimum,
 						}
@@ -544,7 +544,7 @@ func buildFieldType(ww *conversionVisitor, node sourcewalk.FieldNode) (*descript
 				}
 
 				if st.Integer.Rules.Maximum != nil {
-					if st.Integer.Rules.ExclusiveMaximum != nil {
+					if !st.Integer.Rules.GetExclusiveMaximum() {
 						rules.GetUint32().LessThan = &validate.UInt32Rules_Lte{
 							Lte: uint32(*st.Integer.Rules.Maximum),
 						}
@@ -556,7 +556,7 @@ func buildFieldType(ww *conversionVisitor, node sourcewalk.FieldNode) (*descript
 				}
 
 				if st.Integer.Rules.Minimum != nil {
-					if st.Integer.Rules.ExclusiveMinimum != nil {
+					if !st.Integer.Rules.GetExclusiveMinimum() {
 						rules.GetUint32().GreaterThan = &validate.UInt32Rules_Gte{
 							Gte: uint32(*st.Integer.Rules.Minimum),
 						}
@@ -573,7 +573,7 @@ func buildFieldType(ww *conversionVisitor, node sourcewalk.FieldNode) (*descript
 				}
 
 				if st.Integer.Rules.Maximum != nil {
-					if st.Integer.Rules.ExclusiveMaximum != nil {
+					if !st.Integer.Rules.GetExclusiveMaximum() {
 						rules.GetUint64().LessThan = &validate.UInt64Rules_Lte{
 							Lte: uint64(*st.Integer.Rules.Maximum),
 						}
@@ -585,7 +585,7 @@ func buildFieldType(ww *conversionVisitor, node sourcewalk.FieldNode) (*descript
 				}
 
 				if st.Integer.Rules.Minimum != nil {
-					if st.Integer.Rules.ExclusiveMinimum != nil {
+					if !st.Integer.Rules.GetExclusiveMinimum() {
 						rules.GetUint64().GreaterThan = &validate.UInt64Rules_Gte{
 							Gte: uint64(*st.Integer.Rules.Minimum),
 						}
